@@ -428,8 +428,8 @@ func writeEvidence(verif, prop, tier string, seed int, spec *PropSpec, out *chec
 			}
 			trusted["model "+m+": "+doc] = true
 		}
-		for c := range r.calleesByContract {
-			_ = c
+		for c := range r.trustedCallees {
+			trusted["assumed contract of a callee (trusted: its body is not verified): "+c] = true
 		}
 		for u := range r.unmodelled {
 			unmodelled = append(unmodelled, u)
